@@ -436,9 +436,9 @@ ObsWalk == \E src \in Full :
               \/ Observe("obs_walk", <<src, FALSE>>, WalkStructure(reg[src], 0, "None", NoParent))
               \/ Observe("obs_walk", <<src, TRUE>>, WalkTree(reg[src], 0, NoParent))
 (* tree_format: one line per visited element: indentation by level, short id, edge label, summary *)
-ObsTreeFormat == \E src \in Full :
-              \/ Observe("obs_tree_format", <<src, FALSE>>, WalkStructure(reg[src], 0, "None", NoParent))
-              \/ Observe("obs_tree_format", <<src, TRUE>>, WalkTree(reg[src], 0, NoParent))
+ObsTreeFormat == \E src \in Full : \E T \in {{}} \cup {{d} : d \in AllDigests(reg[src])} \cup {AllDigests(reg[src])} :
+              \/ Observe("obs_tree_format", <<src, FALSE, T>>, Highlighted(WalkStructure(reg[src], 0, "None", NoParent), T))
+              \/ Observe("obs_tree_format", <<src, TRUE, T>>, Highlighted(WalkTree(reg[src], 0, NoParent), T))
 (* the text renderings: format, format_flat, diagnostic, hex, tree_format, UR: they return (C16), the counts
    of obscured-element markers agree with the structure, and format / format_flat are the layout of
    Queries!Notation *)
